@@ -1980,3 +1980,178 @@ M("C16", "rf/pivot-value-drawn-once-int-mode-not-truncated", SAM,
             return np.random.uniform(segment.start, segment.end)""",
   """        value = np.random.uniform(segment.start, segment.end)
         return value if self._pivot_type == 'int_pivot' else int(value)""", "R-C16-3")
+
+# ---- second set: broken twins of the deeper restructurings (benign corpus D / E / F)
+M("C03", "rf/zip-row-view-field-0-holds-end", DIS,
+  """            for unit_id, unit in enumerate(units):
+                unit_array[unit_id][0] = unit.segment.start
+                unit_array[unit_id][1] = unit.segment.end
+                unit_array[unit_id][2] = unit.segment.duration
+                unit_array[unit_id][3] = self._category_index(categories, unit.annotation)""",
+  """            for unit_row, unit in zip(unit_array, units):
+                segment = unit.segment
+                unit_row[0] = segment.end
+                unit_row[1] = segment.end
+                unit_row[2] = segment.duration
+                unit_row[3] = self._category_index(categories, unit.annotation)""", "R-C03-0")
+M("C01", "rf/zip-row-view-rows-misaligned-with-units", DIS,
+  """            for unit_id, unit in enumerate(units):
+                unit_array[unit_id][0] = unit.segment.start
+                unit_array[unit_id][1] = unit.segment.end
+                unit_array[unit_id][2] = unit.segment.duration
+                unit_array[unit_id][3] = self._category_index(categories, unit.annotation)""",
+  """            for unit_id, unit in enumerate(units):
+                unit_row = unit_array[len(units) - 1 - unit_id]
+                unit_row[0] = unit.segment.start
+                unit_row[1] = unit.segment.end
+                unit_row[2] = unit.segment.duration
+                unit_row[3] = self._category_index(categories, unit.annotation)""", "R-C01-3")
+M("C03", "rf/local-accumulator-never-reset", DIS,
+  """        res = np.zeros(nb_alignments, dtype=np.float32)
+        c2n = nb_annotators * (nb_annotators - 1) // 2
+        for unitary_alignment_i in range(nb_alignments):
+            unitary_alignment = alignment_array[unitary_alignment_i]
+            for i in range(nb_annotators):
+                for j in range(i):
+                    if unitary_alignment[i, 3] == -1 or unitary_alignment[j, 3] == -1:
+                        res[unitary_alignment_i] += delta_empty
+                    else:
+                        res[unitary_alignment_i] += d_mat(unitary_alignment[i], unitary_alignment[j])""",
+  """        res = np.zeros(nb_alignments, dtype=np.float32)
+        c2n = nb_annotators * (nb_annotators - 1) // 2
+        pairs_total = np.float32(0.0)
+        for unitary_alignment_i in range(nb_alignments):
+            unitary_alignment = alignment_array[unitary_alignment_i]
+            for i in range(nb_annotators):
+                for j in range(i):
+                    if unitary_alignment[i, 3] == -1 or unitary_alignment[j, 3] == -1:
+                        pairs_total += delta_empty
+                    else:
+                        pairs_total += d_mat(unitary_alignment[i], unitary_alignment[j])
+            res[unitary_alignment_i] = pairs_total""", "R-C03-1")
+M("C07", "rf/growth-guard-clause-inverted", DIS,
+  """                if i_chosen == chunk_size:
+                    # Increasing the size of the result array if full
+                    # (security, doesn't happen often since chunk size
+                    # is already decently high by default)
+                    add_size = chunk_size // 2
+                    disorders = extend_right_disorders(disorders, add_size)
+                    alignments = extend_right_alignments(alignments, add_size)
+                    chunk_size += add_size""",
+  """                if i_chosen == chunk_size:
+                    continue
+                add_size = chunk_size // 2
+                disorders = extend_right_disorders(disorders, add_size)
+                alignments = extend_right_alignments(alignments, add_size)
+                chunk_size += add_size""", "R-C07-5")
+M("C07", "rf/renamed-cut-results-of-different-length", DIS,
+  """        disorders, alignments = disorders[:i_chosen - 1], alignments[:i_chosen - 1]  # removing empty unitary alignment
+        disorders /= c2n
+        return disorders, alignments""",
+  """        nb_kept = i_chosen - 1
+        kept_disorders = disorders[:nb_kept]
+        kept_alignments = alignments[:i_chosen]
+        kept_disorders /= c2n
+        return kept_disorders, kept_alignments""", "R-C07-")
+M("C01", "rf/sizes-enumerate-without-the-empty-index", DIS,
+  """        for annotator_id in range(nb_annotators):
+            sizes[annotator_id] = len(unit_arrays[annotator_id])
+            sizes_with_null[annotator_id] = len(unit_arrays[annotator_id]) + 1""",
+  """        for annotator_id, annotator_units in enumerate(unit_arrays):
+            nb_annotator_units = len(annotator_units)
+            sizes[annotator_id] = nb_annotator_units
+            sizes_with_null[annotator_id] = nb_annotator_units""", "R-C01-2")
+M("C05", "rf/job-dispatch-table-soft-and-fast-swapped", CONT,
+  """        job = _compute_best_alignment_job
+        if soft and fast:
+            raise NotImplementedError("Fast-gamma and Soft-gamma are not compatible with each other.")
+        if soft:
+            job = _compute_soft_alignment_job
+        # Multiprocessed computation of sample disorder
+        if fast:
+            job = _compute_fast_alignment_job
+            self.measure_best_window_size(dissimilarity)""",
+  """        if soft and fast:
+            raise NotImplementedError("Fast-gamma and Soft-gamma are not compatible with each other.")
+        jobs = {(False, False): _compute_best_alignment_job,
+                (True, False): _compute_fast_alignment_job,
+                (False, True): _compute_soft_alignment_job}
+        job = jobs[bool(soft), bool(fast)]
+        if fast:
+            self.measure_best_window_size(dissimilarity)""", "R-C05-1")
+M("C05", "rf/sample-jobs-helper-draws-once", CONT,
+  """            result_pool = [
+                # Step one : computing the disorders of a batch of random samples from the continuum (done in parallel)
+                p.submit(job,
+                         *(dissimilarity, sampler.sample_from_continuum))
+                for _ in range(n_samples)
+            ]""",
+  """            sample = sampler.sample_from_continuum
+            futures = []
+            for _ in range(n_samples):
+                futures.append(p.submit(job, dissimilarity, sample))
+            result_pool = futures""", "R-C05-2")
+M("C12", "rf/shared-disorders-helper-none-marker-on-wrong-branch", CONT,
+  """            observed_disorder = observed_disorder_job.result()
+            if observed_disorder == 0:
+                return 1
+            expected_disorder = float(np.mean(np.array([job_res.result() for job_res in chance_disorders_jobs])))
+
+        return 1 - observed_disorder / expected_disorder""",
+  """            observed_disorder = observed_disorder_job.result()
+            if observed_disorder != 0:
+                expected_disorder = None
+            else:
+                expected_disorder = float(np.mean(np.array([job_res.result() for job_res in chance_disorders_jobs])))
+        if expected_disorder is None:
+            return 1
+        return 1 - observed_disorder / expected_disorder""", "R-C12-3")
+M("C13", "rf/eq-not-any-drops-annotator-comparison", CONT,
+  """        for (my_annotator, my_unit), (other_annotator, other_unit) in zip(self, other):
+            if my_annotator != other_annotator:
+                return False
+            elif my_unit != other_unit:
+                return False
+
+        return True""",
+  """        return not any(my_unit != other_unit
+                       for (my_annotator, my_unit), (other_annotator, other_unit) in zip(self, other))""", "R-C13-6")
+M("C18", "rf/writerows-generator-swaps-label-and-annotator", CONT,
+  """            for annotator, unit in self:
+                writer.writerow([annotator, unit.annotation,
+                                 unit.segment.start, unit.segment.end])""",
+  """            writer.writerows([unit.annotation, annotator, unit.segment.start, unit.segment.end] for annotator, unit in self)""", "R-C18-1")
+M("C18", "rf/tier-filter-helper-rejects-everything-without-selection", CONT,
+  """            if selected_tiers is not None and tier_name not in selected_tiers:
+                continue
+            for start, end, value in eaf.get_annotation_data_for_tier(tier_name):""",
+  """            if not (False if selected_tiers is None else tier_name in selected_tiers):
+                continue
+            for start, end, value in eaf.get_annotation_data_for_tier(tier_name):""", "R-C18-4")
+M("C18", "rf/keyword-add-call-label-choice-swapped", CONT,
+  """                if use_tier_as_annotation:
+                    self.add(annotator, Segment(start, end), tier_name)
+                else:
+                    self.add(annotator, Segment(start, end), value)""",
+  """                self.add(annotator=annotator, segment=Segment(start, end),
+                         annotation=value if use_tier_as_annotation else tier_name)""", "R-C18-4")
+M("C16", "rf/shifted-segment-expression-wrap-test-on-end", SAM,
+  """                    if unit.segment.start + pivot > bound_sup:
+                        new_continuum.add(new_annotator,
+                                          Segment(unit.segment.start + pivot + bound_inf - bound_sup,
+                                                  unit.segment.end + pivot + bound_inf - bound_sup),
+                                          unit.annotation)
+                    else:
+                        new_continuum.add(new_annotator,
+                                          Segment(unit.segment.start + pivot,
+                                                  unit.segment.end + pivot),
+                                          unit.annotation)""",
+  """                    new_continuum.add(new_annotator,
+                                      Segment(unit.segment.start + pivot + bound_inf - bound_sup, unit.segment.end + pivot + bound_inf - bound_sup)
+                                      if unit.segment.end + pivot > bound_sup else Segment(unit.segment.start + pivot, unit.segment.end + pivot),
+                                      unit.annotation)""", "R-C16-2")
+M("C10", "rf/fast-alignment-generator-removes-from-self", CONT,
+  """                    if unit is not None:
+                        copy.remove(annotator, unit)  # Now we remove the units from the chosen alignment.""",
+  """                    if unit is not None:
+                        self.remove(annotator, unit)""", "R-C1")
